@@ -98,7 +98,7 @@ Section Modes3d.
       rewrite Htag. cbn [choice_loop].
       intros s tl Hav.
       cbn [dec_call]. unfold dec_body. cbn [andb]. cbn [pbind resume].
-      set (s0 := setmark s (pos s)).
+      set (s0 := s).
       assert (Hav0: avail s0 = (content ++ [0; 0]) ++ tl) by exact Hav.
       unfold dispatch. rewrite Hget. cbn [lift pbind]. rewrite Hbya.
       destruct (Hc s0 tl Hav0) as (s1 & Hrun & Hpos & Harr & Hcl).
@@ -109,7 +109,7 @@ Section Modes3d.
       rewrite Htag.
       intros s tl Hav.
       cbn [dec_call]. unfold dec_body. cbn [andb]. cbn [pbind resume].
-      set (s0 := setmark s (pos s)).
+      set (s0 := s).
       assert (Hav0: avail s0 = content ++ tl) by exact Hav.
       unfold dispatch. rewrite Hget. cbn [lift pbind]. rewrite Hbya.
       destruct (Hc s0 tl Hav0) as (s1 & Hrun & Hpos & Harr & Hcl).
